@@ -95,24 +95,26 @@ structure GpvState where
 deriving DecidableEq, Repr
 
 inductive GpvOp where
-  | write (k : Nat) (v : Int)    -- PostPersist: storage and cache
+  | write (k : Nat) (v : Int)    -- storage and cache
+  | add (k : Nat) (d : Int)      -- PostPersist (native_neo.go:537-550): tmp = d + getLatestGASPerVote(k) to storage and cache
   | drop (k : Nat)               -- dropCandidateIfZero: both deleted (fix 350d30d)
   | restart                      -- InitializeCache: empty cache
 deriving DecidableEq, Repr
-
-def gpvStep (g : GpvState) : GpvOp → GpvState
-  | .write k v => { store := aput g.store k v, cache := aput g.cache k v }
-  | .drop k => { store := adel g.store k, cache := adel g.cache k }
-  | .restart => { g with cache := [] }
-
-def gpvRun (g : GpvState) : List GpvOp → GpvState
-  | [] => g
-  | o :: os => gpvRun (gpvStep g o) os
 
 /-- getLatestGASPerVote: cache first, then storage (0 if absent) -/
 def gpvLookup (g : GpvState) (k : Nat) : Int :=
   match aget g.cache k with
   | some v => v
   | none => (aget g.store k).getD 0
+
+def gpvStep (g : GpvState) : GpvOp → GpvState
+  | .write k v => { store := aput g.store k v, cache := aput g.cache k v }
+  | .add k d => { store := aput g.store k (d + gpvLookup g k), cache := aput g.cache k (d + gpvLookup g k) }
+  | .drop k => { store := adel g.store k, cache := adel g.cache k }
+  | .restart => { g with cache := [] }
+
+def gpvRun (g : GpvState) : List GpvOp → GpvState
+  | [] => g
+  | o :: os => gpvRun (gpvStep g o) os
 
 end NeoModel.Ledger.Components
